@@ -22,6 +22,41 @@ def tables():
     return dist_fn, dist_enum, cost_fn, cost_enum, order_enum
 
 
+def geo_dist(pt, kind):
+    """Independent reference for the distance of every point of `pt` to the chord pt[0]-pt[-1] from the GEOMETRIC definition
+    (closed segment for 'shortest', infinite line for 'perpendicular'), translated to pt[0] first so that it is at least as accurate as
+    the package's expression. Returns (distances, noise): noise bounds the rounding error of the package's un-translated cross product."""
+    pt = np.asarray(pt, float)
+    a, b = pt[0], pt[-1]
+    ab = b - a
+    L = float(np.hypot(ab[0], ab[1]))
+    q = pt - a
+    M = float(np.max(np.abs(pt))) if len(pt) else 0.0
+    if L == 0.0:
+        return np.hypot(q[:, 0], q[:, 1]), 64 * np.finfo(float).eps * (M + 1e-300)
+    cross = np.abs(ab[0] * q[:, 1] - ab[1] * q[:, 0]) / L
+    if kind == 'perpendicular':
+        d = cross
+    else:
+        tpar = (q[:, 0] * ab[0] + q[:, 1] * ab[1]) / (L * L)
+        tc = np.clip(tpar, 0.0, 1.0)
+        d = np.hypot(q[:, 0] - tc * ab[0], q[:, 1] - tc * ab[1])
+    return d, 64 * np.finfo(float).eps * (M * M / L + M)
+
+
+def geo_score(pts, a, b, kind, order):
+    """ordering score of the retained segment [a..b] from the geometric definition (triangle: half base x height of the farthest
+    point; area: sum of the distances); returns (score, noise) or None for the residual order"""
+    pt = np.asarray(pts[a:b + 1], float)
+    d, noise = geo_dist(pt, kind)
+    if order == 'triangle':
+        base = float(np.hypot(*(pt[-1] - pt[0])))
+        return 0.5 * base * float(d.max()), 0.5 * base * noise
+    if order == 'area':
+        return float(d.sum()), noise * len(pt)
+    return None
+
+
 class Oracles:
     def __init__(self, pts, dist, cost, order):
         import kneeliverse.linear_fit as lf
